@@ -54,9 +54,10 @@ def pair_collect(ck, prog, cfg):
             sent = total(eff, 'send', aname(kinds, i))
             small = z3.And(f[i] > 0, f[i] <= MINCOLL)
             # identity: what leaves the ledger is what reaches the collector
-            ck.oblige('C07.pair.collect.identity.subthreshold.%s.a%d' % (cfg, i), p, z3.And(small, f[i] - nf[i] != sent),
+            dropped = z3.And(small, nf[i] == 0, sent == 0)       # exactly the known behaviour: ledger zeroed, nothing sent
+            ck.oblige('C07.pair.collect.identity.subthreshold.%s.a%d' % (cfg, i), p, dropped,
                       'sub-threshold pending fees are dropped from the ledger without reaching the collector', site='sub-threshold collect')
-            ck.oblige('C07.pair.collect.identity.%s.a%d' % (cfg, i), p, z3.And(z3.Not(small), f[i] - nf[i] != sent),
+            ck.oblige('C07.pair.collect.identity.%s.a%d' % (cfg, i), p, z3.And(z3.Not(dropped), f[i] - nf[i] != sent),
                       'ledger decrease equals the amount transferred to the collector')
             ck.oblige('C07.pair.collect.exact.%s.a%d' % (cfg, i), p, z3.And(z3.Not(small), z3.Or(sent != f[i], nf[i] != 0)), 'collect transfers exactly the pending amount')
         nat = ledger_after(p, 'all_time_collected_protocol_fees')
